@@ -1,6 +1,7 @@
 import Ebv.Lemmas.Homo
 /-! Reference semantics of *surface* expressions (what the user writes, Python integer semantics) and the
-proof that the operator overloads preserve it (`elab_evalZ`), except `Sum - expression` (class *sum-minus*). -/
+proof that the operator overloads preserve it (`elab_evalZ`) for every operator, `Sum - expression` included
+(that node computed the sum before `Sum.__sub__` was repaired; the exclusion class *sum-minus* is gone). -/
 namespace Ebv.Gen
 open Ebv.Ebpf
 
@@ -33,7 +34,6 @@ def SExpr.evalZ (env : List VarLoc) (σ : State) : SExpr → Int
 def PyVal.evalZ (σ : State) : PyVal → Int
   | .int v => v
   | .ex e => Gen.evalZ σ e
-  | .none => 0
 
 /-- no computed-address operands (`mB[...]`): those are under correspondence only -/
 def SExpr.noM : SExpr → Bool
@@ -68,7 +68,6 @@ theorem exprBinary_evalZ (σ : State) (bop : BinOp) (self : Expr) (value v : PyV
     v.evalZ σ = bop.evalZ (evalZ σ self) (value.evalZ σ) := by
   unfold exprBinary at hv
   cases value with
-  | none => simp [ensureExpr, typeError] at hv; cases hv
   | int c =>
     simp only [ensureExpr] at hv
     cases hv
@@ -78,7 +77,18 @@ theorem exprBinary_evalZ (σ : State) (bop : BinOp) (self : Expr) (value v : PyV
     cases hv
     rfl
 
-theorem exprAdd_evalZ (σ : State) (self : Expr) (value v : PyVal) (h : exprAdd self value = .ok v) (hn : v ≠ .none) :
+/-- `Sum ± int` builds a new `Sum` whose value is that of the old one plus the integer -/
+theorem sumShift_evalZ (σ : State) (c : Int) (self : Expr) (v : PyVal) (h : sumShift c self = some v) :
+    v.evalZ σ = evalZ σ self + c := by
+  unfold sumShift at h
+  split at h
+  · rename_i l c0 sg
+    cases h
+    show evalZ σ l + (c0 + c) = evalZ σ l + c0 + c
+    omega
+  · cases h
+
+theorem exprAdd_evalZ (σ : State) (self : Expr) (value v : PyVal) (h : exprAdd self value = .ok v) :
     v.evalZ σ = evalZ σ self + value.evalZ σ := by
   unfold exprAdd at h
   cases value with
@@ -87,13 +97,14 @@ theorem exprAdd_evalZ (σ : State) (self : Expr) (value v : PyVal) (h : exprAdd 
     split at h
     · cases h; rfl
     · split at h
-      · cases h; exact absurd rfl hn
+      · rename_i s hs
+        cases h
+        exact sumShift_evalZ σ c self _ hs
       · exact exprBinary_evalZ σ .add self _ v h
   | ex e => exact exprBinary_evalZ σ .add self _ v h
-  | none => exact exprBinary_evalZ σ .add self _ v h
 
-theorem exprSub_evalZ (σ : State) (self : Expr) (value v : PyVal) (h : exprSub self value = .ok v) (hn : v ≠ .none)
-    (hs : ∀ e, value = .ex e → isSumObj self = false) :
+/-- also for `Sum - expression` (before the fix of `Sum.__sub__` this node computed the sum) -/
+theorem exprSub_evalZ (σ : State) (self : Expr) (value v : PyVal) (h : exprSub self value = .ok v) :
     v.evalZ σ = evalZ σ self - value.evalZ σ := by
   unfold exprSub at h
   cases value with
@@ -104,33 +115,29 @@ theorem exprSub_evalZ (σ : State) (self : Expr) (value v : PyVal) (h : exprSub 
       show evalZ σ self + -c = evalZ σ self - c
       omega
     · split at h
-      · cases h; exact absurd rfl hn
+      · rename_i s hs
+        cases h
+        rw [sumShift_evalZ σ (-c) self _ hs]
+        show evalZ σ self + -c = evalZ σ self - c
+        omega
       · exact exprBinary_evalZ σ .sub self _ v h
-  | ex e =>
-    simp only [hs e rfl, Bool.false_eq_true, if_false] at h
-    exact exprBinary_evalZ σ .sub self _ v h
-  | none =>
-    simp only [] at h
-    split at h <;> (unfold exprBinary at h; simp [ensureExpr, typeError] at h; cases h)
+  | ex e => exact exprBinary_evalZ σ .sub self _ v h
 
-theorem exprOp_evalZ (σ : State) (op : SOp) (self : Expr) (value v : PyVal) (h : exprOp op self value = .ok v)
-    (hn : v ≠ .none) (hs : op = .sub → ∀ e, value = .ex e → isSumObj self = false) :
+theorem exprOp_evalZ (σ : State) (op : SOp) (self : Expr) (value v : PyVal) (h : exprOp op self value = .ok v) :
     v.evalZ σ = op.evalZ (evalZ σ self) (value.evalZ σ) := by
   cases op <;> simp only [exprOp] at h
-  · exact exprAdd_evalZ σ self value v h hn
-  · exact exprSub_evalZ σ self value v h hn (hs rfl)
+  · exact exprAdd_evalZ σ self value v h
+  · exact exprSub_evalZ σ self value v h
   · exact exprBinary_evalZ σ .mul self value v h
   · exact exprBinary_evalZ σ .div self value v h
   · exact exprBinary_evalZ σ .mod self value v h
   · cases value with
-    | none => simp [ensureExpr, typeError, bind, Except.bind] at h
     | int c => simp [ensureExpr, bind, Except.bind, pure, Except.pure] at h; subst h; rfl
     | ex e => simp [ensureExpr, bind, Except.bind, pure, Except.pure] at h; subst h; rfl
   · exact exprBinary_evalZ σ .or self value v h
   · exact exprBinary_evalZ σ .xor self value v h
   · exact exprBinary_evalZ σ .lsh self value v h
   · cases value with
-    | none => simp [ensureExpr, typeError, bind, Except.bind] at h
     | int c =>
       simp [ensureExpr, bind, Except.bind, pure, Except.pure, mkBin] at h; subst h
       cases self.signed <;> rfl
@@ -138,20 +145,19 @@ theorem exprOp_evalZ (σ : State) (op : SOp) (self : Expr) (value v : PyVal) (h 
       simp [ensureExpr, bind, Except.bind, pure, Except.pure, mkBin] at h; subst h
       cases self.signed <;> rfl
 
-theorem exprROp_evalZ (σ : State) (op : SOp) (self : Expr) (c : Int) (v : PyVal) (h : exprROp op self c = .ok v)
-    (hn : v ≠ .none) : v.evalZ σ = op.evalZ c (evalZ σ self) := by
-  have hc : ∀ e, (PyVal.ex self) = .ex e → isSumObj (.const c) = false := fun _ _ => rfl
+theorem exprROp_evalZ (σ : State) (op : SOp) (self : Expr) (c : Int) (v : PyVal) (h : exprROp op self c = .ok v) :
+    v.evalZ σ = op.evalZ c (evalZ σ self) := by
   cases op <;> simp only [exprROp] at h
-  · rw [exprAdd_evalZ σ self _ v h hn]; exact Int.add_comm _ _
-  · exact exprOp_evalZ σ .sub (.const c) _ v h hn (fun _ => hc)
+  · rw [exprAdd_evalZ σ self _ v h]; exact Int.add_comm _ _
+  · exact exprOp_evalZ σ .sub (.const c) _ v h
   · rw [exprBinary_evalZ σ .mul self _ v h]; exact Int.mul_comm _ _
   · simp [pure, Except.pure, mkBin] at h; subst h; rfl
-  · exact exprOp_evalZ σ .mod (.const c) _ v h hn (fun hh => by cases hh)
-  · rw [exprOp_evalZ σ .and self _ v h hn (fun hh => by cases hh)]; exact zAnd_comm _ _
+  · exact exprOp_evalZ σ .mod (.const c) _ v h
+  · rw [exprOp_evalZ σ .and self _ v h]; exact zAnd_comm _ _
   · rw [exprBinary_evalZ σ .or self _ v h]; exact zOr_comm _ _
   · rw [exprBinary_evalZ σ .xor self _ v h]; exact zXor_comm _ _
-  · exact exprOp_evalZ σ .lsh (.const c) _ v h hn (fun hh => by cases hh)
-  · exact exprOp_evalZ σ .rsh (.const c) _ v h hn (fun hh => by cases hh)
+  · exact exprOp_evalZ σ .lsh (.const c) _ v h
+  · exact exprOp_evalZ σ .rsh (.const c) _ v h
 
 theorem intOp_evalZ (σ : State) (op : SOp) (a b : Int) (v : PyVal) (h : intOp op a b = .ok v) :
     v.evalZ σ = op.evalZ a b := by
@@ -175,69 +181,39 @@ theorem intOp_evalZ (σ : State) (op : SOp) (a b : Int) (v : PyVal) (h : intOp o
     · cases h
     · cases h; rfl
 
-/-- the node is `Sum - expression` -/
-def sumMinusNode (op : SOp) (x y : PyVal) : Bool :=
-  op == .sub && (match x, y with
-    | .ex l, .ex _ => isSumObj l
-    | _, _ => false)
-
-theorem pyOp_evalZ (σ : State) (op : SOp) (x y v : PyVal) (h : pyOp op x y = .ok v) (hn : v ≠ .none)
-    (hs : sumMinusNode op x y = false) : v.evalZ σ = op.evalZ (x.evalZ σ) (y.evalZ σ) := by
+/-- every node of the operator protocol, **`Sum - expression` included**, has the value Python's integers give it -/
+theorem pyOp_evalZ (σ : State) (op : SOp) (x y v : PyVal) (h : pyOp op x y = .ok v) :
+    v.evalZ σ = op.evalZ (x.evalZ σ) (y.evalZ σ) := by
   cases x with
-  | none => simp [pyOp, typeError] at h
   | int a =>
     cases y with
-    | none => simp [pyOp, typeError] at h
     | int b => exact intOp_evalZ σ op a b v h
-    | ex e => exact exprROp_evalZ σ op e a v h hn
+    | ex e => exact exprROp_evalZ σ op e a v h
   | ex l =>
     cases y with
-    | none =>
-      simp only [pyOp] at h
-      exact exprOp_evalZ σ op l .none v h hn (fun _ _ hh => by cases hh)
     | int b =>
       simp only [pyOp] at h
-      exact exprOp_evalZ σ op l (.int b) v h hn (fun _ _ hh => by cases hh)
+      exact exprOp_evalZ σ op l (.int b) v h
     | ex r =>
       simp only [pyOp] at h
       split at h
       · rename_i hc
         simp only [Bool.and_eq_true, beq_iff_eq] at hc
-        rw [hc.1.1, exprAdd_evalZ σ r _ v h hn]
+        rw [hc.1.1, exprAdd_evalZ σ r _ v h]
         exact Int.add_comm _ _
-      · apply exprOp_evalZ σ op l (.ex r) v h hn
-        intro hop e _
-        subst hop
-        simpa [sumMinusNode] using hs
-
-theorem pyOp_args (op : SOp) (x y v : PyVal) (h : pyOp op x y = .ok v) : x ≠ .none ∧ y ≠ .none := by
-  cases x with
-  | none => simp [pyOp, typeError] at h
-  | int a =>
-    cases y with
-    | none => simp [pyOp, typeError] at h
-    | int b => exact ⟨by simp, by simp⟩
-    | ex e => exact ⟨by simp, by simp⟩
-  | ex l =>
-    cases y with
-    | int b => exact ⟨by simp, by simp⟩
-    | ex e => exact ⟨by simp, by simp⟩
-    | none =>
-      exfalso
-      simp only [pyOp] at h
-      cases op <;> simp [exprOp, exprAdd, exprSub, exprBinary, ensureExpr, typeError, bind, Except.bind] at h
+      · exact exprOp_evalZ σ op l (.ex r) v h
 
 /-- **the operator overloads preserve the mathematical value**: if walking a surface expression (without computed
-addresses, without a `Sum - expression` node) yields a value other than `None`, that value — a folded Python
-`int` or an `Expression` tree — has the mathematical value of the surface expression -/
-theorem elab_evalZ (env : List VarLoc) (σ : State) : ∀ (s : SExpr) (v : PyVal), s.noM = true → sumMinus env s = false →
-    elabE env s = .ok v → v ≠ .none → v.evalZ σ = s.evalZ env σ := by
+addresses) yields a value — a folded Python `int` or an `Expression` tree — that value has the mathematical value of
+the surface expression.  No operator is excluded: `Sum - expression`, `Sum ± int`, `int ± Sum` are covered. -/
+theorem elab_evalZ (env : List VarLoc) (σ : State) : ∀ (s : SExpr) (v : PyVal), s.noM = true →
+    elabE env s = .ok v → v.evalZ σ = s.evalZ env σ := by
   intro s
   induction s with
-  | c z => intro v _ _ h _; simp [elabE, pure, Except.pure] at h; subst h; rfl
-  | reg view no => intro v _ _ h _; simp [elabE, pure, Except.pure] at h; subst h; rfl
+  | c z => intro v _ h; simp [elabE, pure, Except.pure] at h; subst h; rfl
+  | reg view no => intro v _ h; simp [elabE, pure, Except.pure] at h; subst h; rfl
   | var name =>
-    intro v _ _ h _
+    intro v _ h
     simp only [elabE] at h
     simp only [SExpr.evalZ]
     split at h
@@ -246,9 +222,8 @@ theorem elab_evalZ (env : List VarLoc) (σ : State) : ∀ (s : SExpr) (v : PyVal
       rw [hl]; rfl
     · cases h
   | bin op a b iha ihb =>
-    intro v hm hs h hn
+    intro v hm h
     simp only [SExpr.noM, Bool.and_eq_true] at hm
-    simp only [sumMinus, Bool.or_eq_false_iff] at hs
     simp only [elabE, bind, Except.bind] at h
     cases hx : elabE env a with
     | error e => rw [hx] at h; cases h
@@ -260,35 +235,28 @@ theorem elab_evalZ (env : List VarLoc) (σ : State) : ∀ (s : SExpr) (v : PyVal
       | ok y =>
         rw [hy] at h
         simp only [] at h
-        obtain ⟨hxn, hyn⟩ := pyOp_args op x y v h
-        have hnode : sumMinusNode op x y = false := by
-          have := hs.2
-          rw [hx, hy] at this
-          cases x <;> cases y <;> simp_all [sumMinusNode]
-        rw [pyOp_evalZ σ op x y v h hn hnode, iha x hm.1 hs.1.1 hx hxn, ihb y hm.2 hs.1.2 hy hyn]
+        rw [pyOp_evalZ σ op x y v h, iha x hm.1 hx, ihb y hm.2 hy]
         rfl
   | neg a ih =>
-    intro v hm hs h hn
+    intro v hm h
     simp only [elabE, bind, Except.bind] at h
     cases hx : elabE env a with
     | error e => rw [hx] at h; cases h
     | ok x =>
       rw [hx] at h
       cases x with
-      | none => simp [pyNeg, typeError] at h
-      | int z => simp [pyNeg, pure, Except.pure] at h; subst h; simp only [SExpr.evalZ, ← ih _ hm hs hx (by simp)]; rfl
-      | ex e => simp [pyNeg, pure, Except.pure] at h; subst h; simp only [SExpr.evalZ, ← ih _ hm hs hx (by simp)]; rfl
+      | int z => simp [pyNeg, pure, Except.pure] at h; subst h; simp only [SExpr.evalZ, ← ih _ hm hx]; rfl
+      | ex e => simp [pyNeg, pure, Except.pure] at h; subst h; simp only [SExpr.evalZ, ← ih _ hm hx]; rfl
   | abs a ih =>
-    intro v hm hs h hn
+    intro v hm h
     simp only [elabE, bind, Except.bind] at h
     cases hx : elabE env a with
     | error e => rw [hx] at h; cases h
     | ok x =>
       rw [hx] at h
       cases x with
-      | none => simp [pyAbs, typeError] at h
-      | int z => simp [pyAbs, pure, Except.pure] at h; subst h; simp only [SExpr.evalZ, ← ih _ hm hs hx (by simp)]; rfl
-      | ex e => simp [pyAbs, pure, Except.pure] at h; subst h; simp only [SExpr.evalZ, ← ih _ hm hs hx (by simp)]; rfl
+      | int z => simp [pyAbs, pure, Except.pure] at h; subst h; simp only [SExpr.evalZ, ← ih _ hm hx]; rfl
+      | ex e => simp [pyAbs, pure, Except.pure] at h; subst h; simp only [SExpr.evalZ, ← ih _ hm hx]; rfl
   | m f a _ => intro v hm; simp [SExpr.noM] at hm
 
 end Ebv.Gen
